@@ -430,6 +430,52 @@ def popup_sites(db, rep):
     return out
 
 
+class MsgArgHooks(TableHooks):
+    """msgno() on concrete argument strings, with the real scan_ulong() under it"""
+    def inline(self, fn, depth):
+        return fn.name == 'scan_ulong' or super().inline(fn, depth)
+
+    def materialize_split(self, E, path):
+        return None
+
+    def materialize(self, E, path):
+        if path.startswith('M[') and path.endswith('.flagdeleted'):
+            self.bounds(E, None, path)
+            return fs(0)
+        return super().materialize(E, path)
+
+    def _err(self, E, x, args):
+        return [Outcome(ret=TOP)]
+
+    prim_err_syntax = prim_err_nozero = prim_err_toobig = prim_err_deleted = _err
+
+
+def msgno_argument_sites(db, rep):
+    """msgno(arg) with numm = 3, nothing deleted: an index only for "1", "2", "3" (a decimal number, optionally followed by a blank and more, as TOP passes it)"""
+    prog = db.program('qmail-pop3d')
+    mn = prog.fn('msgno', 'qmail-pop3d.c')
+    out = {}
+    n = 0
+    for arg in (b'1', b'3', b'2 5', b'0', b'4', b'', b'junk', b'-1', b' 1', b'2junk', b'1x', b'18446744073709551617', b'18446744073709551618', b'4294967297', b'99999999999999999999999', b'007'):
+        H = MsgArgHooks()
+        H.entry = 'msgno'
+        rets = []
+        H.on_return = lambda E, f, v, rets=rets: rets.append(v) if f.name == 'msgno' else None
+        e = Engine(db, prog, H, max_states=60000)
+        st = {'%s::%s' % (e.frame_id(mn), mn.params[0]): fs(('&', 'ARG[0]'))}
+        st.update(libtab.conc_string_cells('ARG', arg))
+        e.run(mn, st)
+        rep.count_states(e.states, e.transitions)
+        n += 1
+        got = sorted({g1v(v) for v in rets}, key=str)
+        head = arg.split(b' ')[0]
+        valid = head.isdigit() and 1 <= int(head) <= 3 and (arg == head or arg[len(head):len(head) + 1] == b' ')
+        want = [int(head) - 1] if valid else [-1]
+        out['msgno(%r)' % arg.decode()] = (got == want, 'qmail-pop3d.c:msgno',
+                                           'the argument %r is answered with %s; documented %s: %s' % (arg.decode(), got, want, 'message %d' % int(head) if valid else 'refused (not the number of a message that exists)'), [])
+    return out
+
+
 def run(ctx):
     db, rep = ctx.db, ctx.report
     prog = db.program('qmail-pop3d')
@@ -484,6 +530,8 @@ def run(ctx):
                 bad.append((inp, ret, 'expected %d' % (inp - 1)))
         elif ret != -1:
             bad.append((inp, ret, 'expected -1 (deleted=%s)' % deleted))
+    for inst_, v_ in sorted(msgno_argument_sites(db, rep).items()):
+        r2.check(v_[0], inst_, v_[1], v_[2], v_[3])
     r2.check(len(seen_in) >= 10 and not bad, 'msgno-table', u + ':msgno', 'deviations (input, result): %s' % bad[:5])
     for inst, v in sorted(MH.sites.items()):
         r2.check(v[0], 'msgno:' + inst, v[1], v[2], v[3])
